@@ -37,7 +37,7 @@ VALUES = {
     'f16': [0.0, -0.0, 5.960464477539063e-08, 1.5, 65504.0, float('inf'), float('-inf'), 1.0],
     'f32': [0.0, -0.0, 1.401298464324817e-45, 1.5, 3.4028234663852886e+38, float('inf'), float('-inf'), -123.25],
     'f64': [0.0, -0.0, SUB, 1.5, 1.7976931348623157e+308, float('inf'), float('-inf'), 0.1],
-    'str': [b'', b'a', b'ab', b'abc', b'\x00\xff{}', 'text', '21\u00b0C', '\u03a9\u20ac', b'hello'],
+    'str': [b'', b'a', b'ab', b'abc', b'\x00\xff{}', 'text', '21\u00b0C', '\u03a9\u20ac', b'abc\x00', b'\x00', b' ab \x00\x00', b'hello'],
     'bits': [[True], [False, True, True], [True] * 8, [bool(i % 3) for i in range(9)], [bool((0xA5C3 >> i) & 1) for i in range(16)]],
 }
 TYPES = list(VALUES)
